@@ -65,7 +65,7 @@ theorem path_need {G : Graph} {ctx : List Nat} (h : verify G ctx = true) :
       have := ok.ctx_eq; rw [hc] at this; exact (Option.some.inj this).symm
     subst this
     have hl' := ok.lib l hl
-    simp only [heldRank, hf, eff] at hl' ⊢
+    simp only [heldRank, rankAt, hf, eff] at hl' ⊢
     omega
   | cons j rest ih =>
     intro i s c hp hc hcs k f hk hf l hl
@@ -87,7 +87,7 @@ theorem path_need {G : Graph} {ctx : List Nat} (h : verify G ctx = true) :
     have hk' : (j :: rest).getLast? = some k := by
       simpa [List.getLast?_cons_cons] using hk
     have := ih j (max s fi.lock.rank) cj hrest okj.ctx_eq (by simp only [eff] at hle; omega) k f hk' hf l hl
-    simp only [heldRank, hfi] at this ⊢
+    simp only [heldRank, rankAt, hfi] at this ⊢
     omega
 
 end OW.Proofs.C08Lock
